@@ -1242,6 +1242,14 @@ def c08_scenarios():
     for ln in (250, 255):
         S["name-of-%d-bytes" % ln] = [("w", "A", "keep", Z), ("w", "B", "keep", Z), ("s",), ("w", "A", "n" * ln, big[:300000])]
     S["big-replace"] = [("w", "A", "big", big), ("w", "B", "big", big), ("s",), ("w", "B", "big", big[::-1])]
+    # K1 (repaired, see known_findings.json): a conflict-copy name of 236..245 bytes. A kill while that copy is staged
+    # leaves `<name>.copia-tmp` (246..255 bytes) behind; the next run sees it as an ordinary file and has to deliver it,
+    # which cannot be staged at `<name>.copia-tmp.copia-tmp`. The host is "vh": `.conflict-vh-<12 hex>` adds 25 bytes.
+    for ln in (211, 215, 220):
+        S["conflict-copy-name-of-%d-bytes" % (ln + 25)] = [("w", "A", "c" * ln, Z), ("w", "B", "c" * ln, Z), ("s",), ("w", "A", "c" * ln, b"a-edit" * 9000), ("w", "B", "c" * ln, b"b-edit" * 9000)]
+    # the same leftover as a state the trees come with (a killed earlier run), next to an in-sync file of that name:
+    # the run under test has to deliver a 250-byte name, and is itself killed at every point while doing so
+    S["leftover-staging-of-240-byte-name"] = [("w", "A", "l" * 240, Z), ("w", "B", "l" * 240, Z), ("s",), ("w", "B", "l" * 240 + STAGING, big[:100000]), ("w", "A", "other", Y)]
     return S
 
 
